@@ -541,6 +541,17 @@ def check_bip38rt(ctx, case):
     except Exception as e:
         raise Discrepancy('bip38rt.export.raises', 'encrypt raised %r' % e, case)
     for name, enc in encs:
+        # the same string through the HD key class (a key without derivation data)
+        try:
+            hk = K.HDKey(enc, password=pw, network=net, witness_type='legacy')
+            hgot = (hk.secret, bool(hk.compressed), hk.public_byte, bool(hk.is_private))
+        except Exception as e:
+            raise Discrepancy('bip38rt.import_hdkey.raises', 'HDKey(%s, password=%r, network=%s, witness_type=legacy) '
+                              'raised %r (secret %x, compressed=%s)' % (enc, pw, net, e, sec, comp), case)
+        if hgot != (sec, comp, want_pub, True):
+            raise Discrepancy('bip38rt.import_hdkey', 'HDKey(%s, password=%r, network=%s): (secret, compressed, public, '
+                              'is_private) = %s, exported key had %s' %
+                              (enc, pw, net, _short(hgot), _short((sec, comp, want_pub, True))), case)
         try:
             k = K.Key(enc, password=pw, network=net)
         except Exception as e:
